@@ -952,7 +952,7 @@ def prove(name, cond, detail=None, effort="full"):
     return ob.status == "discharged"
 
 
-def lemma(name, hyps, goal, witness=None):
+def lemma(name, hyps, goal, witness=None, opaque=()):
     """Obligation `goal` proved from an explicit list of facts (manual slicing for hard arithmetic): every
     hypothesis must already be on the path condition or is proved first as its own obligation; then
     hyps => goal is checked in isolation.  If that fails the obligation falls back to the ordinary
@@ -971,6 +971,13 @@ def lemma(name, hyps, goal, witness=None):
     t0 = time.time()
     ha = [_abs_lambdas(h) for h in hs]
     ga = _abs_lambdas(g)
+    if opaque:
+        # listed subterms are replaced by fresh constants (hide their definitions: sound, the lemma gets weaker)
+        ts = sorted({_abs_lambdas(term(SV.lift(o))).sexpr(): _abs_lambdas(term(SV.lift(o))) for o in opaque}.values(),
+                    key=lambda t: -len(t.sexpr()))
+        subs = [(t, z3.Const("opq!%d" % k, t.sort())) for k, t in enumerate(ts)]
+        ha = [z3.substitute(h, *subs) for h in ha]
+        ga = z3.substitute(ga, *subs)
     r = None
     if is_nonlinear(ga) or any(is_nonlinear(h) for h in ha):
         r = _nra_split_unsat(ha, ga)
